@@ -6,7 +6,7 @@ LEVEL = "proof"
 FAMILY = "pat"
 
 # known-finding classes (keys as in props/C09.findings.txt / KNOWN_FINDINGS.txt)
-K_G1_POS, K_G1_NEG = "K14", "K15"
+K_G1_NEG = "K15"   # K14 (false positives) is repaired: match_sound holds without a guard
 
 
 def T(name):
@@ -179,8 +179,9 @@ def evaluate(ctx, cases, impl, model):
                 agrees = n < len(Mm) and Mm[n] == M[n] and Sm[n] == Sx[n]
                 # a known finding: outside the guard of match_iff_select_partial, and exactly the
                 # behaviour of the (faithful) model; anything else that fails is a violation
-                if agrees and G[0] == "0":
-                    known = K_G1_POS if pos else K_G1_NEG
+                # (false negative only: match_sound has no guard, a false positive is always a violation)
+                if agrees and G[0] == "0" and not pos:
+                    known = K_G1_NEG
             orc.append({"case": c, "node": n, "what": what, "known": known})
     ctx.cov["distinct_nontrivial"] = ctx.cov.get("distinct_nontrivial", 0) + len(seen)
     return corr, scorr, orc
@@ -321,8 +322,8 @@ def evaluate_sheets(ctx, cases, model):
                 if pm is None:
                     return None
                 wf, G, Mm, Sm = pm
-                if G[0] == "0" and Mm[i] == actual and Sm[i] == Sx[i]:
-                    return K_G1_POS if actual and not Sx[i] else K_G1_NEG
+                if G[0] == "0" and Mm[i] == actual and Sm[i] == Sx[i] and not actual and Sx[i]:
+                    return K_G1_NEG
                 return None
             if T[i] != Sx[i]:
                 orc.append({"sheet": rep("template match=P %s for the node but the defining expression says %s" % ("fires" if T[i] else "does not fire", Sx[i]), i),
